@@ -1,6 +1,6 @@
 #!/bin/bash
 # round 2: usage seed_confirm2.sh <ID>; reads "// crate-dir: X  package: Y" from SEED/demo.rs (or uses SEED/demo.sh)
-id="$1"; w=/tmp/seed2/$id; out=/verif/seeded/round2/$id
+id="$1"; root=${SEED_ROOT:-/tmp/seed2}; w=$root/$id; out=/verif/seeded/${SEED_ROUND:-round2}/$id
 mkdir -p $out; cd $w || exit 2
 export CARGO_TARGET_DIR=$w/target
 cdir=$(head -3 SEED/demo.rs 2>/dev/null | grep -o "crate-dir: *[a-z_]*" | head -1 | sed 's/crate-dir: *//')
